@@ -1,6 +1,7 @@
 import TunnoxModel.Proofs.C19SimK
 import TunnoxModel.Proofs.C19Fault
 import TunnoxModel.Proofs.C19Reg
+import TunnoxModel.Proofs.C19Sys
 /-!
 # C19 — a public domain routes only to its single rightful owner
 
@@ -59,6 +60,34 @@ theorem skel_Registry :
     Skel.Registry_Lookup = ["mu.RLock", "defer mu.RUnlock", "@r.mappings"] ∧
     Skel.Registry_IsBaseDomainAllowed = ["mu.RLock", "defer mu.RUnlock", "@r.baseDomains", "@r.baseDomains"] ∧
     Skel.Registry_LookupByHost = ["Lookup"] := by decide
+
+/-- Entry points around the repository: the create handler takes the identity from the connection (`ctx.ClientID`),
+asks the checker, then the creator (defaults 80 / 443 / 7·24·3600 s); the delete handler passes `ctx.ClientID` and the
+requested id; the adapter creates then updates (expiry), deletes with the given client; cleanup lists, tests `IsExpired`
+and deletes with the mapping's own client; the proxy looks up `r.Host` and sends to the mapping's `TargetClientID`. -/
+theorem skel_entry_points :
+    Skel.CreateHandler_Handle = ["@ctx.ClientID", "@ctx.ClientID", "checker.IsBaseDomainAllowed", "checker.IsSubdomainAvailable",
+      "@req.MappingTTL", "creator.CreateHTTPDomainMapping", "@ctx.ClientID"] ∧
+    Skel.CreateHandler_Handle_lits = [0, 80, 443, 0, 7, 24, 3600] ∧
+    Skel.DeleteHandler_Handle = ["@ctx.ClientID", "@ctx.ClientID", "@req.MappingID", "deleter.DeleteHTTPDomainMapping",
+      "@ctx.ClientID", "@req.MappingID", "@req.MappingID"] ∧
+    Skel.Adapter_Create = ["repo.CreateMapping", "@clientID", "repo.UpdateMapping", "repo.UpdateMapping"] ∧
+    Skel.Adapter_Delete = ["repo.DeleteMapping", "@mappingID", "@clientID", "@mappingID"] ∧
+    Skel.Adapter_IsSubdomainAvailable = ["repo.CheckSubdomainAvailable"] ∧
+    Skel.CheckSubdomainAvailable = ["HTTPDomainIndexKey", "storage.Exists"] ∧
+    Skel.CleanupExpiredMappings = ["ListAllMappings", "IsExpired", "DeleteMapping", "@mapping.ID", "@mapping.ClientID"] ∧
+    Skel.handleSmallRequest = ["lookupMapping", "@r.Host", "GetControlConnectionInterface", "@mapping.TargetClientID",
+      "buildProxyRequest", "SendHTTPProxyRequest", "@mapping.TargetClientID"] := by decide
+
+/-- The large-request and WebSocket paths reach the same `lookupMapping(r.Host)` and hand the tunnel to the mapping's
+`TargetClientID` (second and third path to the routing decision; driven through ServeHTTP only for small requests). -/
+theorem skel_other_proxy_paths :
+    Skel.handleLargeRequest = ["lookupMapping", "@r.Host", "@mapping.TargetClientID", "@r.Host", "RequestTunnelForHTTP", "@mapping.TargetClientID"] ∧
+    Skel.handleUserWebSocket = ["lookupMapping", "@r.Host", "@mapping.TargetClientID", "@r.Host", "RequestTunnelForHTTP", "@mapping.TargetClientID"] := by
+  decide
+
+/-- the handler's default lifetime is the model's -/
+theorem C19_default_ttl : defaultTTL = 604800 := by decide
 
 /-- Side condition on the key prefixes: keys of the four families (index, record, delete claim, client list)
 and the two fixed keys never collide, so the model's separate maps are faithful. -/
@@ -303,13 +332,39 @@ theorem C19_failed_create_rolls_back (cf : Config) (s : Store) (cl : Nat) (sub b
 example : (createFault ⟨.repaired, 0, ["t.net"], []⟩ (initStore ⟨⟨.repaired, 0, ["t.net"], []⟩, [], [], []⟩) 1 "a" "t.net" "h" 80 3).2
     = .err Gen.coreerrors.CodeStorageError := by decide +kernel
 
+/-! ### entry points: command handlers, adapter, cleanup, ServeHTTP (Model/C19Sys.lean) -/
+
+/-- **Entry-point clauses, every store and every input.**  `CleanupExpiredMappings` removes only expired mappings;
+the create handler refuses only for its own reasons (unauthenticated, missing field, base not allowed, name in use);
+both handlers refuse an unauthenticated connection and never act with client 0.  (`entryOK` is applied by the driver to
+every observation of the real handlers.)  Every entry-point call expands into operations of the interleaving model
+(`expandH`), so `C19_main` covers histories made of them; the `c19h` run compares the expansion with the real code. -/
+theorem C19_entry_points_ok (cf : Config) (s : Store) (h : HOp) : entryOK cf h (stepH cf s h).2 = true :=
+  entryOK_model cf s h
+
+/-- The delete handler acts with the connection's client: on another client's mapping it is refused and nothing changes. -/
+theorem C19_handler_delete_owner_only (cf : Config) (s : Store) (client id : Nat) (r : Rec) (hc : client ≠ 0)
+    (hd : s.data id = some r) (hne : r.ClientID ≠ client) :
+    (stepH cf s (.hdelete client id)).2 = .res (.err Gen.coreerrors.CodeForbidden) ∧
+    (stepH cf s (.hdelete client id)).1.index = s.index ∧ (stepH cf s (.hdelete client id)).1.data = s.data :=
+  hdelete_foreign cf s client id r hc hd hne
+
+/-- Non-vacuity: create through the handler, expire it, clean up (one removed, it was expired), the name is free. -/
+example :
+    (runH ⟨.repaired, 2000, ["t.net"], []⟩ (initStore ⟨⟨.repaired, 2000, ["t.net"], []⟩, [], [], []⟩)
+      [.hcreate 1 "a" "t.net" "https" "h" 0 0, .serve "a.t.net:443", .op (.upd 1 "active" 1000 "h" 443), .cleanup,
+       .avail "a" "t.net", .hdelete 0 1]).2 =
+    [.res (.okId 1), .served 1 "http://h:443/p", .res .ok, .cleaned 1 [(1, 1, 1000)], .flag true, .refused "AUTH"] := by
+  decide +kernel
+
 /-! ### the registry as arbiter: simultaneous claimants of one name -/
 
 /-- **Single owner in `DomainRegistry`, every interleaving.**  For every set of threads, every history of
-`Register` / `Unregister` / `LookupByHost` calls per thread (arbitrary mappings, names, IDs, base-domain lists) and
+`Register` / `Unregister` / `UnregisterByMappingID` / `Rebuild` (restart, reload) / `LookupByHost` /
+`IsSubdomainAvailable` calls per thread (arbitrary mappings, names, IDs, base-domain lists) and
 every schedule of their lock sections: two `Register` calls for the same full domain with different mapping IDs are
 never both told "registered" while the first still owns the name — many clients claiming one name at the same
-moment included — and `LookupByHost` answers with the owner. -/
+moment included — `LookupByHost` answers with the owner, and `IsSubdomainAvailable` never calls an owned name free. -/
 theorem C19_registry_single_owner (i : RInput) (hns : i.cf.split = false) : holdsReg (modelReg i) = true :=
   holdsReg_model i hns
 
